@@ -100,6 +100,9 @@ def rename_rule(ctx, prog, rid):
             break
         if isinstance(st, ast.If) and any(isinstance(x, ast.Return) for x in ast.walk(st)):
             t = st.test
+            if (isinstance(t, ast.UnaryOp) and isinstance(t.op, ast.Not) and dotted(t.operand) == rparam) or ast.unparse(t) in (
+                    "len(%s) == 0" % rparam, "%s == []" % rparam):
+                continue      # nothing to rename
             positional = any(isinstance(x, ast.Call) and dotted(x.func) in ("enumerate", "zip") for x in ast.walk(t)) or any(
                 isinstance(x, ast.Subscript) for x in ast.walk(t))
             insensitive = any(isinstance(x, ast.SetComp) or (isinstance(x, ast.Call) and dotted(x.func) in ("set", "frozenset", "sorted", "len", "sum", "Counter"))
